@@ -27,6 +27,8 @@ def const(name, typ=r"[\w:<>]+"):
 
 # (coq name, file, regex)
 CONSTS = [
+    # C08: capacity of the per-protocol event channel (ProtocolSet -> TransportService)
+    ("DEFAULT_CHANNEL_SIZE", "src/lib.rs", const("DEFAULT_CHANNEL_SIZE")),
     # C17
     ("DEFAULT_MAX_RECORDS", KAD + "config.rs", const("DEFAULT_MAX_RECORDS")),
     ("DEFAULT_MAX_RECORD_SIZE_BYTES", KAD + "config.rs", const("DEFAULT_MAX_RECORD_SIZE_BYTES")),
@@ -58,6 +60,7 @@ CONSTS = [
     ("C19_KAD_DEFAULT_MAX_MESSAGE_SIZE", KAD + "config.rs", const("DEFAULT_MAX_MESSAGE_SIZE")),
     ("C19_IDENTIFY_PAYLOAD_SIZE", "src/protocol/libp2p/identify.rs", const("IDENTIFY_PAYLOAD_SIZE")),
     ("C19_BITSWAP_MAX_MESSAGE_SIZE", "src/protocol/libp2p/bitswap/config.rs", const("MAX_MESSAGE_SIZE")),
+    ("C19_WEBRTC_MAX_FRAME_SIZE", "src/transport/webrtc/util.rs", const("MAX_FRAME_SIZE")),
     ("PEER_ID_MULTIHASH_SIZE", "src/peer_id.rs", r"type\s+Multihash\s*=\s*multihash::Multihash<\s*(\d+)\s*>\s*;"),
     # C04
     ("BACKPRESSURE_BOUNDARY", "src/substream/mod.rs", const("BACKPRESSURE_BOUNDARY")),
@@ -147,6 +150,11 @@ def main():
     import gen_conn_exits
     counts, miss = gen_conn_exits.generate(REPO)
     vals.update(counts)      # CONN_EXIT_SITES, WS_EXIT_SITES, QUIC_EXIT_SITES
+    missing += list(miss)
+    # C18: every place that makes a PeerId from key material -> coq/gen/PeerIdSites.v (sibling script)
+    import gen_c18_sites
+    counts, miss = gen_c18_sites.generate(REPO)
+    vals.update(counts)      # PEER_ID_SITES
     missing += list(miss)
     str_names = []
     for name, path, rx in STR_CONSTS:
